@@ -3,7 +3,7 @@
    Proofs: proofs/FormatSteps.v (element() cut into blocks), proofs/FormatChunks.v (chunk view of
    the stream), proofs/FormatCosmetic.v, proofs/FormatProofs.v. *)
 From Emmet Require Import lib.Base model.MarkupConvert model.OutStream model.FormatHtml
-     proofs.FormatSteps proofs.FormatProofs proofs.FormatChunks proofs.FormatTabstops proofs.FormatCosmetic proofs.FormatDepth.
+     proofs.FormatSteps proofs.FormatProofs proofs.FormatChunks proofs.FormatTabstops proofs.FormatCosmetic proofs.FormatDepth proofs.FormatSelfClose.
 
 (* SPEC.
    fchunks st      the callback invocations of a run, positions erased: CT text | CF index placeholder
@@ -51,20 +51,20 @@ Proof. exact (fun Hf => comments_additive_lemma c Hf children). Qed.
 Print Assumptions comments_additive_tabstops_partial.
 
 (* selfclose_local.  Full statement: the self-closing style changes only the ` /` or `/` before `>`.
-   with_style s c     the option record c with output.selfClosingStyle := s
-   close_mark c       the content item of the end of a self-closed tag: ">" (html), "/>" (xhtml: the
-                      blank of " />" is a leading blank of its chunk, and xml)
-   RelS c s1 s2 x y   x and y have the same length and are equal item by item, except that where x has
-                      the closing mark of style s1, y has the closing mark of style s2
-   Proved for ALL trees, ALL pairs of styles and ALL option records with compactBoolean off.
-   _partial: (1) with output.compactBoolean on the statement is false on the code (theorem
-   selfclose_compact_boolean_refuted below, known finding C12:selfclose-compact-boolean);
-   (2) compared is the content: chunks made of blanks only and leading blanks are not compared
-   (the two runs have identical cosmetic options). *)
+   with_style s c       the option record c with output.selfClosingStyle := s
+   mark c               the chunk that closes a self-closed tag: self_close c ++ ">", i.e. ">" (html),
+                        " />" (xhtml), "/>" (xml)
+   same_chunk c s1 s2 x y   x = y, or x is the mark of style s1 and y the mark of style s2
+   selfclose_local_partial: for ALL trees, ALL pairs of styles and ALL option records with compactBoolean
+   off, the two runs make the same callback invocations one by one (blanks, line breaks and tabstop
+   numbers included), except that the mark of one style faces the mark of the other.
+   _partial only because of the hypothesis: with output.compactBoolean on the statement is false on the
+   code (selfclose_compact_boolean_refuted below, known finding C12:selfclose-compact-boolean). *)
 Theorem selfclose_local_partial c s1 s2 children :
-  ws_fmt (oc_fmt c) -> oc_compact_boolean c = false ->
-  RelS c s1 s2 (content (html_format (with_style s1 c) children)) (content (html_format (with_style s2 c) children)).
-Proof. exact (fun Hf Hc => selfclose_local_lemma c s1 s2 Hf Hc children). Qed.
+  oc_compact_boolean c = false ->
+  Forall2 (same_chunk c s1 s2) (fchunks (html_format (with_style s1 c) children))
+                               (fchunks (html_format (with_style s2 c) children)).
+Proof. exact (fun Hc => selfclose_exact_lemma c s1 s2 Hc children). Qed.
 Print Assumptions selfclose_local_partial.
 
 (* indent_is_depth.  Full statement: with formatting on and no element exempted through formatSkip,
@@ -179,11 +179,11 @@ Definition ex_input : list anode :=
   [ANode (Some [105;110;112;117;116]%N) None None
          (Some [mkAAttr (Some [100;105;115;97;98;108;101;100]%N) None VRaw true false false]) [] true].
 Theorem selfclose_compact_boolean_refuted :
-  ws_fmt (oc_fmt ex_cb) /\
-  ~ RelS ex_cb s_html s_xhtml (content (html_format (with_style s_html ex_cb) ex_input))
-                              (content (html_format (with_style s_xhtml ex_cb) ex_input)).
+  oc_compact_boolean ex_cb = true /\
+  ~ Forall2 (same_chunk ex_cb s_html s_xhtml) (fchunks (html_format (with_style s_html ex_cb) ex_input))
+                                             (fchunks (html_format (with_style s_xhtml ex_cb) ex_input)).
 Proof.
-  split; [repeat split|]. intros H. apply Forall2_len in H. vm_compute in H. discriminate.
+  split; [reflexivity|]. intros H. apply Forall2_len in H. vm_compute in H. discriminate.
 Qed.
 Print Assumptions selfclose_compact_boolean_refuted.
 
